@@ -7,6 +7,7 @@ import (
 	"bufio"
 	"bytes"
 	"context"
+	"encoding"
 	"encoding/base64"
 	"encoding/json"
 	"errors"
@@ -15,6 +16,7 @@ import (
 	"math"
 	"net/http"
 	"net/http/httptest"
+	"net/netip"
 	"net/url"
 	"os"
 	"reflect"
@@ -63,6 +65,8 @@ func Canon(v reflect.Value) string {
 		return fmt.Sprintf("dur(%d)", int64(x))
 	case url.URL:
 		return "url(" + x.String() + ")"
+	case netip.Addr:
+		return "ip(" + x.String() + ")"
 	case []byte:
 		if x == nil {
 			return "[]"
@@ -219,6 +223,14 @@ func build(api PkgAPI, t reflect.Type, j any) reflect.Value {
 		}
 		v.Set(reflect.ValueOf(*u))
 		return v
+	}
+	if s, ok := j.(string); ok && t.Kind() != reflect.String {
+		if tu, ok := v.Addr().Interface().(encoding.TextUnmarshaler); ok {
+			if err := tu.UnmarshalText([]byte(s)); err != nil {
+				panic(err)
+			}
+			return v
+		}
 	}
 	switch t.Kind() {
 	case reflect.String:
